@@ -617,6 +617,21 @@ impl private::StoreCallbacks<AnnotationDataSet> for AnnotationStore {
             }
         }
         self.dataset_annotation_metamap.remove_all(handle);
+
+        //annotations that target a key or a data item of this set (metadata) can not survive it either
+        let mut annotations: BTreeSet<AnnotationHandle> = BTreeSet::new();
+        if let Some(map) = self.key_annotation_metamap.data.get(handle.as_usize()) {
+            annotations.extend(map.data.iter().flatten());
+        }
+        if let Some(map) = self.data_annotation_metamap.data.get(handle.as_usize()) {
+            annotations.extend(map.data.iter().flatten());
+        }
+        for a_handle in annotations {
+            self.remove_dependent_annotation(a_handle)?;
+        }
+        self.key_annotation_metamap.remove_all(handle);
+        self.data_annotation_metamap.remove_all(handle);
+        self.dataset_data_annotation_map.remove_all(handle);
         Ok(())
     }
 }
